@@ -262,7 +262,7 @@ func (w *World) build() {
 		}
 		w.legacy = &replica{inst: inst}
 	}
-	if (w.mode.Prop == "C01" || (w.mode.Prop == "C06" && !s.Timed)) && !w.mode.External && t.Chance(1, 2) {
+	if (w.mode.Prop == "C01" || w.sibReads()) && !w.mode.External && t.Chance(1, 2) {
 		// one process usually serves several logs (ct_server with several LogConfigs): the same chain may reach
 		// two of them within one millisecond, and each must answer with its own id and its own signature
 		k := oracle.Keys(p.LogKeyKind)
@@ -628,7 +628,7 @@ func (w *World) nextOp() *Op {
 		return w.genSubmit()
 	case 1:
 		op := w.genRead()
-		if w.mode.Prop == "C06" && w.sib != nil && op.Kind != "get-sth" && op.Kind != "get-roots" && t.Chance(1, 3) {
+		if w.sibReads() && w.sib != nil && op.Kind != "get-sth" && op.Kind != "get-roots" && op.Bad == "" && t.Chance(1, 3) {
 			// the same question to the other log of the process - if a request of that kind is under way at the first
 			// log, with the very same parameters (whatever the front end shares between requests must not be shared
 			// between logs)
@@ -648,8 +648,13 @@ func (w *World) nextOp() *Op {
 	}
 }
 
-// judgeSibling judges an operation sent to the sibling log (spec C06): the history oracle of C06 against the
-// sibling's own backend, key and served heads.
+// sibReads: the specs in which the sibling log is read as well (the default-mode, stepped specs of C06 and C07).
+func (w *World) sibReads() bool {
+	return (w.mode.Prop == "C06" || w.mode.Prop == "C07") && !w.mode.External && !w.s.Timed
+}
+
+// judgeSibling judges an operation sent to the sibling log: the spec's own oracle against the sibling's own
+// backend, key and served heads.
 func (w *World) judgeSibling(op *Op) {
 	if op.Sub != nil {
 		if op.Status == 200 {
@@ -660,7 +665,7 @@ func (w *World) judgeSibling(op *Op) {
 	be, key, sths := w.be, w.logKey, w.sths
 	w.be, w.logKey, w.sths = w.sib.be, w.sib.key, w.sibSTHs
 	defer func() { w.sibSTHs = w.sths; w.be, w.logKey, w.sths = be, key, sths }()
-	oracleC06(w, op)
+	w.mode.Oracle(w, op)
 }
 
 func (w *World) launch(op *Op) {
@@ -823,7 +828,7 @@ func (w *World) Options(s *kernel.Sim) []kernel.Option {
 	} else if s.FaultsOn() && w.started < w.prof.MaxOps {
 		opts = append(opts, kernel.Option{Key: "resign root", Weight: 1, Apply: func() { w.be.Sequence(0, true) }})
 	}
-	if w.sib != nil && w.mode.Prop == "C06" && len(w.sib.be.Log.Queued) > 0 {
+	if w.sib != nil && w.sibReads() && len(w.sib.be.Log.Queued) > 0 {
 		opts = append(opts, kernel.Option{Key: "sequence sibling", Weight: 3, Apply: func() { w.sib.be.Sequence(-1, false) }})
 	}
 	if s.FaultsOn() && (w.active > 0 || w.started < w.prof.MaxOps) {
@@ -872,7 +877,7 @@ func (w *World) AfterStep(s *kernel.Sim) {
 		if !w.sthHasSource(op) {
 			continue
 		}
-		if op.Sibling && w.mode.Prop == "C06" {
+		if op.Sibling && w.sibReads() {
 			w.judgeSibling(op)
 			continue
 		}
